@@ -12,7 +12,7 @@ import (
 func init() {
 	register(&Prop{
 		ID:          "C08",
-		Explanation: "Decides that the authorisation predicates guard every serving path: every nil-error return of getAuthenticatedSession that is not a configured bypass re-ran Validator(session.Email) (skipped only for an empty e-mail) and provider.Authorize(session) with outcome true, and every ErrAccessDenied return first calls ClearSessionCookie; the login callback saves a session only after Validator(session.Email) && Authorize(session); the auth-only 202 writer is reached only after authOnlyAuthorize(req, session)==true for the session getAuthenticatedSession returned; authOnlyAuthorize returns true only for a nil session or after every element of a constraint list containing the three query constraints returned true; each query constraint returns true only when its parameter is absent or a membership test on the session's own field succeeded; the only Provider.Authorize implementation returns true only for an empty allowed-groups map or a membership hit of a session group; isEmailValidWithDomains accepts only through suffix tests applied to an end-anchored part of the address (the address or its last '@'-separated element) against an operand that starts at '@' or at a '.' label boundary, and the validator closure answers true only by that rule, the authenticated-emails file or the '*' rule and never for an empty address; the allow-list/htpasswd file watcher runs its reload action on every path that selected a remove/create/write event and WaitForReplacement returns only after the watch was re-added.",
+		Explanation: "Decides that the authorisation predicates guard every serving path: every nil-error return of getAuthenticatedSession that is not a configured bypass re-ran Validator(session.Email) (skipped only for an empty e-mail) and provider.Authorize(session) with outcome true, and every ErrAccessDenied return first calls ClearSessionCookie; the login callback saves a session only after Validator(session.Email) && Authorize(session); the auth-only 202 writer is reached only after authOnlyAuthorize(req, session)==true for the session getAuthenticatedSession returned; authOnlyAuthorize returns true only for a nil session or after every element of a constraint list containing the three query constraints returned true; each query constraint returns true only when its parameter is absent or a membership test on the session's own field succeeded; the only Provider.Authorize implementation returns true only for an empty allowed-groups map or a membership hit of a session group; isEmailValidWithDomains accepts only through suffix tests applied to an end-anchored part of the address (the address or its last '@'-separated element) against an operand that starts at '@' or at a '.' label boundary, and the validator closure answers true only by that rule, the authenticated-emails file or the '*' rule and never for an empty address; the allow-list/htpasswd file watcher runs its reload action on every path that selected a remove/create/write event and WaitForReplacement returns only after the watch was re-added. Added during the build: accepting paths of the e-mail validator (R5); allow-list reload on every selected file event with re-armed watch (R6); IsEndpointAllowed/isHostnameAllowed accepting paths used by the allowed-email-domains constraint (R7, shared with C06.R4).",
 		NotDecided:  "value semantics of the string predicates beyond their accepting-path structure (case folding, unusual local parts), IsEndpointAllowed for auth-only domain constraints (see C06.R4), UserMap contents.",
 		Run:         runC08,
 	})
@@ -23,6 +23,7 @@ func runC08(c *Ctx) {
 	r.Rule("R1-every-request", "authenticated returns of getAuthenticatedSession re-run Validator and Authorize; denied returns clear the cookie first", 4)
 	r.Rule("R2-callback", "callback saves only after Validator(session.Email) && Authorize(session)", 1)
 	r.Rule("R3-auth-only", "202 only after authOnlyAuthorize(req, session)==true; authOnlyAuthorize / checkAllowed* structure", 10)
+	r.Rule("R7-domain-constraint-helper", "IsEndpointAllowed / isHostnameAllowed accepting paths used by the auth-only allowed_email_domains constraint (shared with C06.R4)", 3)
 	r.Rule("R6-rules-reload", "the rule-file watcher runs the reload action for every selected event and returns from waiting only after re-arming the watch", 2)
 	r.Rule("R5-email-validator", "accepting paths of the e-mail validator: end-anchored suffix tests at '@' or '.' boundaries; validator true only by domain rule, file or '*'", 2)
 	r.Rule("R4-authorize", "Provider.Authorize has one implementation, true only on empty AllowedGroups or membership", 2)
@@ -93,6 +94,7 @@ func runC08(c *Ctx) {
 
 	runC08R5(c)
 	runC08R6(c)
+	runRedirectValidators(c, "R7-domain-constraint-helper", false)
 
 	// ---- R4 ---------------------------------------------------------------------------------
 	rule = "R4-authorize"
@@ -553,8 +555,10 @@ func domainOf(v ssa.Value) ssa.Value {
 }
 
 // runC08R6: rule changes after login take effect — the file watcher always reloads and always re-arms.
-func runC08R6(c *Ctx) {
-	rule := "R6-rules-reload"
+func runC08R6(c *Ctx) { runWatcherReloadRule(c, "R6-rules-reload") }
+
+// runWatcherReloadRule: every selected file event ends in action(); the watch is re-armed (C08.R6, also C20).
+func runWatcherReloadRule(c *Ctx, rule string) {
 	filter := c.Fn(rule, "pkg/watcher.filterEvent")
 	wait := c.Fn(rule, "pkg/watcher.WaitForReplacement")
 	if filter == nil || wait == nil {
